@@ -1016,8 +1016,14 @@ func (in *inner) evalTriple(t Triple, cc *compiledCache) (res tripleResult) {
 		}
 		ccs, cerr := cc.get(sig, in.p.Outer(), c.Scheme, circ)
 		if ccs == nil {
-			res.classes = append(res.classes, "compiled:compile-error")
-			res.violation = fmt.Sprintf("%s outer circuit runs in the test engine but does not compile: %s", where, cerr)
+			// with a constant key the builder folds the (incomplete) arithmetic on the key points: an
+			// exceptional key makes Compile fail where the test engine fails at run time
+			if outerOK {
+				res.violation = fmt.Sprintf("%s outer circuit is satisfied in the test engine but does not compile: %s", where, cerr)
+				return res
+			}
+			res.classes = append(res.classes, "compiled:compile-error-consistent-with-engine-reject")
+			res.nontriv = !res.native || (sw && inRange && sel != 0)
 			return res
 		}
 		w, werr := frontend.NewWitness(asg, in.p.Outer())
@@ -1358,13 +1364,15 @@ func genCase(cfg genCfg) *rapid.Generator[Case] {
 	})
 }
 
-const rule = "An inner circuit (rapid-generated lib/zk.GenProvable program, 0-1 commitments for Groth16, 0-2 for PLONK) fixes the shape; keys a (Setup), r/r2 (re-setup / other SRS) and b (circuit B = A with one Add/Sub/Mul renamed, same shape) and genuine proofs a, a2, alt (second statement), r, r2, b are produced with std/recursion GetNativeProverOptions. Each case carries 2-8 drawn triples (proof, key or selector, public vector): genuine; replayed against another statement's public vector or an edited one (inc/dec/zero/delta/copy/swap); one proof element replaced by another valid group element (neg, double, add/set from a sibling element, same element of another genuine proof, scalar multiple, infinity, cofactor-torsion point for Groth16 on the two-chains) or one claimed scalar altered; proof of key X against key Y; key-switching modes with 2-3 candidate keys and every selector incl. out-of-range ones. Configuration drawn per case: pairing, key mode (witness / fixed / const / switchw / switchc), WithCompleteArithmetic, WithSubgroupCheck, and (subset) Compile+Solve of the outer circuit. Oracle: native Verify(triple) with GetNativeVerifierOptions == nil  <=>  test.IsSolved(outer circuit) == nil, both directions; in incomplete arithmetic the completeness direction is asserted only outside the documented exceptional inputs (zero scalars, points at infinity, coinciding MSM points); a cofactor-torsion point must be rejected only under WithSubgroupCheck. Non-trivial: the case contains a triple whose native verdict is reject, or a key-switching triple selecting a non-first key. Distinct: SHA-256 of the case JSON."
+const rule = "An inner circuit (rapid-generated lib/zk.GenProvable program, 0-1 commitments for Groth16 - the in-circuit verifier supports one - and 0-2 for PLONK) fixes the shape of the outer circuit (placeholders). Keys: a (Setup), r/r2 (Groth16: re-setup; PLONK: other SRS) and b (circuit B = A with one Add/Sub/Mul renamed or one more multiplication; same shape, same SRS); genuine proofs a, a2, alt (second statement), r, r2, b made with std/recursion GetNativeProverOptions. Each case carries 2-8 drawn triples (proof, key or selector, public vector): genuine; replayed against another statement's public vector or an edited one (inc/dec/zero/delta/copy/swap); one proof element replaced by another valid group element (neg, double, add/set from a sibling element, the same element of another genuine proof, scalar multiple, infinity, +cofactor-torsion point for Groth16 G1 elements on the two-chains) or one claimed scalar altered (PLONK); proof of key X against key Y; key-switching modes with 2-3 candidate keys and every selector incl. out-of-range ones. Configuration drawn per case: pairing (two-chains bls12-377>bw6-761, bls24-315>bw6-633; emulated bn254>bn254, bls12-381>bn254, bw6-761>bn254), key mode (witness / fixed / const / switchw / switchc / same2 = PLONK AssertSameProofs with a genuine companion), WithCompleteArithmetic, WithSubgroupCheck (where implemented), and for a subset Compile+Solve of the outer circuit. Oracle: native Verify(triple) with GetNativeVerifierOptions == nil  <=>  test.IsSolved(outer circuit) == nil (and == compiled Solve), both directions; PLONK modes with a shared base key compare against the native key composed of the base part of the first key and the circuit part of the selected key; without WithCompleteArithmetic the completeness direction is asserted only outside the documented exceptional inputs (zero scalars, points at infinity, MSM points coinciding up to sign); a cofactor-torsion point must be rejected only under WithSubgroupCheck. Non-trivial: the case contains a triple whose native verdict is reject, or a key-switching triple selecting a non-first key. Distinct: SHA-256 of the case JSON."
 
 func setup(rec *ev.Recorder) {
 	rec.SetRule(rule)
 	rec.Assume("native verdicts are computed, never assumed: a perturbed triple that the native verifier still accepts is a completeness case")
 	rec.Assume("without WithCompleteArithmetic the in-circuit verifiers are only required to accept honest triples whose MSM scalars are non-zero and whose MSM points are distinct up to sign and not at infinity (doc comments of std/algebra MultiScalarMul / ScalarMul and of recursion/plonk WithCompleteArithmetic)")
 	rec.Assume("without WithSubgroupCheck a G1 proof element moved by a cofactor-torsion point may be accepted in-circuit (the pairing cannot see it); the native verifier always checks subgroup membership")
+	rec.Assume("outer runs on bw6-761>bn254 are serialised: concurrent engines using std/algebra/emulated/sw_bw6761 disturb each other through a package-level emulated.Element (reported separately, not asserted here)")
+	rec.Assume("Groth16 with WithCompleteArithmetic, no commitment and an all-zero public vector is excluded (class excluded:candidate-finding:...) until registered in known_findings.json: AssertProof adds K[0] with the incomplete curve.Add to an MSM result at infinity")
 	rec.Assume("Groth16 public inputs r-k (k < 2^20) on the emulated GLV curves are not generated: the half-GCD hint does not terminate (known finding F27)")
 }
 
